@@ -3,7 +3,12 @@
 
 package wasp
 
-import "sync/atomic"
+import (
+	"context"
+	"sync/atomic"
+
+	"github.com/vx-labs/mqtt-protocol/packet"
+)
 
 // Verification hooks. Compiled only with the "verif" build tag; none of them
 // changes behaviour unless a test harness registers a function.
@@ -49,3 +54,20 @@ func VerifWriterPool(w Writer) VerifMIDPool { return w.(*writer).midPool }
 // VerifSetWriterPool replaces the allocator of a writer (before Run) by a
 // fresh one for [min, max].
 func VerifSetWriterPool(w Writer, min, max int32) { w.(*writer).midPool = newMIDPool(min, max) }
+
+// VerifRecordingWriter returns a Writer whose Schedule calls fn; Run and Send do
+// nothing. It lets a harness observe what SchedulePublishes hands to the
+// delivery scheduler (Writer cannot be implemented outside this package
+// because Run takes the unexported messageLog).
+func VerifRecordingWriter(fn func(ctx context.Context, offset uint64)) Writer {
+	return verifRecordingWriter{fn}
+}
+
+type verifRecordingWriter struct {
+	fn func(ctx context.Context, offset uint64)
+}
+
+func (v verifRecordingWriter) Run(ctx context.Context, log messageLog) error { <-ctx.Done(); return nil }
+func (v verifRecordingWriter) Schedule(ctx context.Context, offset uint64)   { v.fn(ctx, offset) }
+func (v verifRecordingWriter) Send(ctx context.Context, recipients []string, qosses []int32, p *packet.Publish) {
+}
